@@ -10,6 +10,7 @@ from vp import gen
 from vp import defaults
 from vp import reuse
 from vp import forms as argforms
+from vp import corners
 from vp.gen import layout as gen_layout
 
 from vp import probe, refmodels as rm
@@ -22,7 +23,7 @@ RULE = ('seeded generator over input shape (1x1..24x24 quick / ..64 thorough; ev
 ASSUMPTIONS = ['numpy longdouble (80-bit) arithmetic is the reference for the defining sum',
                'phase arguments bounded (|2 pi alpha x u| < 1e4 rad)']
 PLAN = {'quick': {'gen': 8}, 'thorough': {'gen': 16, 'tests': 1, 'docs': 1}}
-REQUIRED_BUCKETS = ['defaults', 'reuse', 'forms', 'shift:nearby', 'out:view', 'out:extended-precision-input', 'out:unaligned', 'alpha:narrow-float', 'alpha:extreme', 'in:1x1', 'in:even', 'in:odd', 'in:nonsquare', 'alpha:iso', 'alpha:aniso',
+REQUIRED_BUCKETS = ['defaults', 'corners', 'reuse', 'forms', 'shift:nearby', 'out:view', 'out:extended-precision-input', 'out:unaligned', 'alpha:narrow-float', 'alpha:extreme', 'in:1x1', 'in:even', 'in:odd', 'in:nonsquare', 'alpha:iso', 'alpha:aniso',
                     'shift0', 'shift+offset', 'unitary:True', 'unitary:False', 'out:given', 'out:none',
                     'inverse:unitary', 'inverse:nonunitary', 'inverse:general', 'cache:evict', 'sweep', 'out:aliased-tall',
                     'refused-then-reused']
@@ -205,6 +206,7 @@ def workload(ctx, lentil):
     defaults.run(ctx, lentil, 'C01', 'dft2=sum')
     reuse.run(ctx, lentil, 'C01', 'dft2=sum')
     argforms.run(ctx, lentil, 'C01', 'dft2=sum')
+    corners.run(ctx, lentil, 'C01', 'dft2=sum')
     rng = ctx.rng
     dft2, idft2 = lentil.fourier.dft2, lentil.fourier.idft2
     hi = 24 if ctx.tier == 'quick' else 64
